@@ -62,7 +62,8 @@ def _integer_total(rng, occs):
 def _title(rng):
     n = int(rng.integers(1e6))
     return [f"generated wavefunction {n}", f"wfn (run {n}; b3lyp/6-31g*) = 50% a/b #tag", f"wfn 'quoted' \"double\" x [y] {{z}} {n}",
-            f"wfn  two  blanks   inside {n}", f"{n}", f"wfn_{n}: E=-1.5e+01, <S^2>=0.75 & more"][int(rng.integers(6))]
+            f"wfn  two  blanks   inside {n}", f"{n}", f"wfn_{n}: E=-1.5e+01, <S^2>=0.75 & more",
+            f"wfn {n} " + "long title copied from the comment line of a geometry optimisation " * 2 + "end"][int(rng.integers(7))]
 
 
 def make(rng, target, lmax=None, shell_order=None, contraction=None, conv_class=None, spin=None, virtuals=None, ghosts=None,
